@@ -34,7 +34,7 @@ func init() {
 		Shards:   shards(8, 16),
 		Timeout:  timeouts(4*time.Minute, 40*time.Minute),
 		MinEvals: 300,
-		Required: []string{"op:create", "op:mkdir", "op:open-io", "op:open-trunc", "op:chmod", "op:rename", "op:rename-onto-existing", "op:truncate", "op:multi-wstat", "op:remove", "op:remove-nonempty-dir", "snapshots_compared", "stats_compared", "listings_compared", "reads_compared"},
+		Required: []string{"op:create", "op:mkdir", "op:open-io", "op:open-trunc", "op:chmod", "op:rename", "op:rename-onto-existing", "op:truncate", "op:truncate-same-fid", "op:multi-wstat", "op:remove", "op:remove-nonempty-dir", "snapshots_compared", "stats_compared", "listings_compared", "reads_compared"},
 		Run:      runC19,
 	})
 }
@@ -113,7 +113,7 @@ func oflagsRef(mode p9p.Flag) int {
 }
 
 var c19dirs = []string{"", "d1", "d2"}
-var c19names = []string{"f1", "f2", "g", "d1", "d2", "sub"}
+var c19names = []string{"f1", "f2", "g", "d1", "d2", "sub", ".hid", "..x"}
 
 func runC19(w *mon.W) {
 	n := w.Scale(3000, 150000)
@@ -207,6 +207,9 @@ func runC19Seq(w *mon.W, no int) {
 					return
 				}
 				mutated = true
+				if !c19sameFidTruncate(w, sess, pf, pb, r, &trace, agree) {
+					return
+				}
 			}
 			if fb != nil {
 				fb.Close()
@@ -269,6 +272,9 @@ func runC19Seq(w *mon.W, no int) {
 					return
 				}
 				mutated = true
+				if !c19sameFidTruncate(w, sess, f, pb, r, &trace, agree) {
+					return
+				}
 			}
 			if fb != nil {
 				fb.Close()
@@ -548,4 +554,22 @@ func c19io(w *mon.W, sess p9p.Session, f p9p.Fid, fb *os.File, pa string, r rnd,
 		}
 	}
 	return true
+}
+
+// c19sameFidTruncate truncates through the very fid that was just written through (its
+// cached stat predates the writes), to the size the file had when the fid was bound among others.
+func c19sameFidTruncate(w *mon.W, sess p9p.Session, f p9p.Fid, pb string, r rnd, trace *[]string, agree func(string, error, error) bool) bool {
+	if r.Intn(3) != 0 {
+		return true
+	}
+	st, err := os.Lstat(pb)
+	if err != nil || st.IsDir() {
+		return true
+	}
+	nl := []int64{0, 0, st.Size() / 2, st.Size(), 5}[r.Intn(5)]
+	ea := sess.WStat(context.Background(), f, p9p.Dir{Mode: ^uint32(0), Length: uint64(nl)})
+	eb := os.Truncate(pb, nl)
+	*trace = append(*trace, fmt.Sprintf("wstat(same fid) length=%d", nl))
+	w.Count("op:truncate-same-fid", 1)
+	return agree("wstat(same fid) truncate", ea, eb)
 }
